@@ -16,7 +16,7 @@ import ast
 import re
 
 from sa.cfg import CFG
-from sa.core import AnalysisError, LiteralEvaluator, NotLiteral, enclosing, norm, parents, src, walk_no_nested
+from sa.core import AnalysisError, LiteralEvaluator, NotLiteral, enclosing, norm, parents, resolve_callee, src, walk_no_nested
 
 from . import c03, common
 
@@ -143,6 +143,14 @@ def r3(p, rep):
         raise AnalysisError("unrecognised idiom: no `while pos < len(text)` scan loop in parse_op")
 
 
+def _nonempty_table(ev, it):
+    try:
+        members = ev.eval(it)
+    except NotLiteral:
+        return False
+    return bool(members) and all(isinstance(m, str) and len(m) > 0 for m in members)
+
+
 def _positive(p, ev, value, at):
     if isinstance(value, ast.Constant) and isinstance(value.value, int) and value.value > 0:
         return True
@@ -150,11 +158,31 @@ def _positive(p, ev, value, at):
         nm = value.args[0].id
         for par in parents(at):
             if isinstance(par, ast.For) and isinstance(par.target, ast.Name) and par.target.id == nm:
-                try:
-                    members = ev.eval(par.iter)
-                except NotLiteral:
+                return _nonempty_table(ev, par.iter)
+        # `lit = helper(text, pos)` where the helper returns a member of a literal table or None, and the
+        # increment is only executed when `lit is not None`
+        fn = enclosing(at, (ast.FunctionDef, ast.AsyncFunctionDef))
+        defs = [n.value for n in ast.walk(fn) if isinstance(n, ast.Assign) and any(isinstance(t, ast.Name) and t.id == nm for t in n.targets)] if fn is not None else []
+        if defs and all(isinstance(d, ast.Call) for d in defs):
+            f = p.func_containing(at)
+            oks = []
+            for d in defs:
+                r = resolve_callee(p, d, f.module) if f else None
+                if not (r and r[0] == "func"):
                     return False
-                return all(isinstance(m, str) and len(m) > 0 for m in members)
+                h = r[1]
+                rets = [x for x in walk_no_nested(h.node) if isinstance(x, ast.Return)]
+                good = bool(rets)
+                for x in rets:
+                    if x.value is None or (isinstance(x.value, ast.Constant) and x.value.value is None):
+                        continue
+                    loop = enclosing(x, ast.For)
+                    good = good and isinstance(x.value, ast.Name) and loop is not None and isinstance(loop.target, ast.Name) and loop.target.id == x.value.id and _nonempty_table(LiteralEvaluator(p, h.module), loop.iter)
+                oks.append(good)
+            if all(oks):
+                cfg = CFG(fn)
+                facts = [(norm(t), pol) for t, pol in cfg.guards_of_ast(at)]
+                return (f"{nm} is None", False) in facts or (f"{nm} is not None", True) in facts
     return False
 
 
